@@ -310,7 +310,18 @@ pub fn step_sql(m: &Model, s: &RStep) -> String {
             index_cols(&mut ix, cols, &name_of);
             match pred {
                 Some(RPred::And(x, y)) if *split_where => {
-                    ix.and_where(pred_expr(x, &name_of));
+                    // two predicate-adding calls; an OR / NOT on the left goes in as a condition group (any / negated all)
+                    match &**x {
+                        RPred::Or(p, q) => {
+                            ix.cond_where(Cond::any().add(pred_expr(p, &name_of)).add(pred_expr(q, &name_of)));
+                        }
+                        RPred::Not(p) => {
+                            ix.cond_where(Cond::all().add(pred_expr(p, &name_of)).not());
+                        }
+                        _ => {
+                            ix.and_where(pred_expr(x, &name_of));
+                        }
+                    }
                     ix.and_where(pred_expr(y, &name_of));
                 }
                 Some(p) => {
